@@ -28,7 +28,7 @@ func init() {
 		Batches:      func(tier string) int { return 16 },
 		ChildTimeout: func(string) time.Duration { return 30 * time.Minute },
 		Run:          runC13,
-		Required:     []string{"genesis_compared", "kickstart_compared", "kickstart_with_signatures_compared", "kickstart_wrong_key_refused", "validity_true", "validity_false", "deposit_valid_new", "deposit_bad_pop", "deposit_topup", "deposit_invalid_pubkey", "deposit_undecodable_sig", "deposit_over_cap", "deposit_below_max", "invalid_proof_rejected", "refused_small_registry_not_judged"},
+		Required:     []string{"genesis_compared", "genesis_built_while_others_are_built", "kickstart_compared", "kickstart_with_signatures_compared", "kickstart_wrong_key_refused", "validity_true", "validity_false", "deposit_valid_new", "deposit_bad_pop", "deposit_topup", "deposit_invalid_pubkey", "deposit_undecodable_sig", "deposit_over_cap", "deposit_below_max", "invalid_proof_rejected", "refused_small_registry_not_judged"},
 	})
 }
 
@@ -42,6 +42,44 @@ func runC13(b *fw.B) {
 		n = 4
 	}
 	keys := sim.GetKeys()
+	type keptGenesis struct {
+		zspec    *common.Spec
+		hash     common.Root
+		eth1Time common.Timestamp
+		deps     []common.Deposit
+		bytes    string
+		root     refspec.Root
+		desc     string
+	}
+	var keptGen []keptGenesis
+	defer func() {
+		// the genesis states that were compared one by one are built again, 6 at the same time on goroutines of their own,
+		// each from its own copy of the deposits: every build must still give the bytes and the root it gave alone
+		if len(keptGen) == 0 {
+			return
+		}
+		b.Case("genesis-overlapped", fmt.Sprintf("%d retained deposit lists built on 6 goroutines", len(keptGen)))
+		msgs := overlapped(6, 2, func(w, i int) string {
+			k := keptGen[(w+i)%len(keptGen)]
+			deps := append([]common.Deposit{}, k.deps...)
+			zst, _, err := phase0.GenesisFromEth1(k.zspec, k.hash, k.eth1Time, deps, false)
+			if err != nil {
+				return fmt.Sprintf("GenesisFromEth1 failed when other genesis states are built at the same time (%s): %v", k.desc, err)
+			}
+			zb, _ := sim.ZrntStateBytes(zst)
+			if string(zb) != k.bytes {
+				return fmt.Sprintf("genesis state built while other genesis states are built at the same time differs from the one built alone (%s)", k.desc)
+			}
+			if refspec.Root(sim.ZrntStateRoot(zst)) != k.root {
+				return fmt.Sprintf("root of the genesis state built while other genesis states are built at the same time differs from initialize_beacon_state_from_eth1's (%s)", k.desc)
+			}
+			return ""
+		})
+		b.Count("genesis_built_while_others_are_built", 6*2)
+		for _, m := range msgs {
+			b.Violate("GenesisFromEth1/overlapping-builds", m, nil)
+		}
+	}()
 	for i := 0; i < n && !b.Stop(); i++ {
 		rng := b.Rng
 		sc := scenario{Preset: []string{"minimal", "minimal", "custom", "mainnet"}[rng.IntN(4)], ForkEpochs: [4]uint64{ff, ff, ff, ff}}
@@ -208,6 +246,10 @@ func runC13(b *fw.B) {
 				continue
 			}
 			b.Inc("genesis_compared")
+			if len(keptGen) < 6 {
+				zs := *zspec
+				keptGen = append(keptGen, keptGenesis{&zs, common.Root(hash), common.Timestamp(eth1Time), append([]common.Deposit{}, zDeps...), string(rb), sp.S.StateRoot(refSt), desc})
+			}
 			// the returned context
 			fresh, ferr := common.NewEpochsContext(zspec, zst)
 			if ferr != nil {
